@@ -67,8 +67,17 @@ func (p *Parser) parseWithStatement() (ast.Statement, error) {
 		stmt.With = withClause
 		return stmt, nil
 	case *ast.SetOperation:
-		// For set operations, attach WITH to the left statement if it's a SELECT
-		if leftSelect, ok := stmt.Left.(*ast.SelectStatement); ok {
+		// Set operations nest to the left (a UNION b UNION c is (a UNION b) UNION c): attach WITH to
+		// the left-most SELECT of the chain.
+		var left ast.Statement = stmt
+		for {
+			setOp, ok := left.(*ast.SetOperation)
+			if !ok {
+				break
+			}
+			left = setOp.Left
+		}
+		if leftSelect, ok := left.(*ast.SelectStatement); ok {
 			leftSelect.With = withClause
 		}
 		return stmt, nil
